@@ -128,5 +128,14 @@ def run(ctx):
     I.call(I.getattr(grown, "__iadd__"), [unit], {})
     dict_eq(ctx, "R1", "Hill form after += has the atoms of the sum", I.getattr(I.getattr(grown, "hill"), "atoms"),
             {U[0]: sp.Integer(2), U[2]: sp.Integer(3)}, s_hill)
-    ctx.floor("R1", 4); ctx.floor("R2", 13); ctx.floor("R3", 1); ctx.floor("R4", 3)
+    # counts are carried over exactly, whatever their magnitude or number of digits
+    xs = sp.symbols("x1:4", positive=True)
+    generic = {U[0]: xs[0], U[1]: xs[1], U[-1]: xs[2]}
+    dict_eq(ctx, "R1", "Hill form keeps symbolic (arbitrary real) counts exactly", I.getattr(I.getattr(I.call(fm, [dict(generic)], {}), "hill"), "atoms"),
+            generic, s_hill)
+    fine = {U[0]: sp.Rational(3, 10 ** 13), U[1]: sp.Rational(30000000000000004, 10 ** 17), U[-1]: sp.Integer(10) ** 15 + sp.Rational(1, 8)}
+    got_fine = I.getattr(I.getattr(I.call(fm, [dict(fine)], {}), "hill"), "atoms")
+    ctx.check(isinstance(got_fine, dict) and set(got_fine) == set(fine) and all(sp.sympify(got_fine[a]) == fine[a] for a in fine), "R1",
+              "Hill form keeps very small, very large and many-digit counts exactly", f"counts {_s(got_fine)} instead of {_s(fine)}", s_hill)
+    ctx.floor("R1", 6); ctx.floor("R2", 13); ctx.floor("R3", 1); ctx.floor("R4", 3)
     ctx.unit("functions_inlined", len(set(I.calls)))
